@@ -11,6 +11,7 @@ import (
 	"os"
 	"path/filepath"
 	"sort"
+	"sync"
 	"testing"
 	"time"
 
@@ -32,13 +33,25 @@ type wl struct {
 	Node  string `json:"node"`
 	ID    string `json:"id"`
 	Sfx   string `json:"sfx"`
+	Color string `json:"color,omitempty"` // label color=<Color>
 }
 
 type query struct {
-	Kind  string `json:"kind"` // list | count
+	Kind  string `json:"kind"` // list | count | stream
 	App   string `json:"app"`
 	Entry string `json:"entry"`
 	Node  string `json:"node"`
+	Limit int64  `json:"limit,omitempty"` // list only
+	Label string `json:"label,omitempty"` // list/stream: require label color=<Label>
+}
+
+// proc is an in-flight deployment marker (Store.CreateProcessing)
+type proc struct {
+	App   string `json:"app"`
+	Entry string `json:"entry"`
+	Node  string `json:"node"`
+	Ident string `json:"ident"`
+	Count int    `json:"count"`
 }
 
 type kase struct {
@@ -48,6 +61,7 @@ type kase struct {
 	Name    string   `json:"name,omitempty"`  // parse: raw name
 	Elems   []string `json:"elems,omitempty"` // join
 	World   []wl     `json:"world,omitempty"`
+	Procs   []proc   `json:"procs,omitempty"`
 	Queries []query  `json:"queries,omitempty"`
 	Impl    any      `json:"impl,omitempty"`
 }
@@ -84,6 +98,9 @@ func setup(t *testing.T) {
 	redisStore = r
 }
 
+type streamRes struct {
+	Stream []string `json:"stream"` // ids of the workloads whose status change was delivered
+}
 type listRes struct {
 	IDs []string `json:"ids,omitempty"`
 	Err string   `json:"err,omitempty"`
@@ -91,6 +108,30 @@ type listRes struct {
 type countRes struct {
 	Counts map[string]int `json:"counts,omitempty"`
 	Err    string         `json:"err,omitempty"`
+}
+
+func labelsOf(color string) map[string]string {
+	if color == "" {
+		return nil
+	}
+	return map[string]string{"color": color}
+}
+
+// collector of one WorkloadStatusStream
+type collector struct {
+	mu  sync.Mutex
+	ids map[string]bool
+}
+
+func (c *collector) snapshot() []string {
+	c.mu.Lock()
+	defer c.mu.Unlock()
+	out := []string{}
+	for id := range c.ids {
+		out = append(out, id)
+	}
+	sort.Strings(out)
+	return out
 }
 
 func runWorld(k *kase) {
@@ -105,18 +146,29 @@ func runWorld(k *kase) {
 	addErrs := []string{}
 	for _, w := range k.World {
 		st.AddNode(ctx, &types.AddNodeOptions{Nodename: w.Node, Endpoint: "mock://" + w.ID, Podname: "pod", Test: true}) //nolint
-		wk := &types.Workload{ID: w.ID, Name: utils.MakeWorkloadName(w.App, w.Entry, w.Sfx), Nodename: w.Node, Podname: "pod"}
+		wk := &types.Workload{ID: w.ID, Name: utils.MakeWorkloadName(w.App, w.Entry, w.Sfx), Nodename: w.Node, Podname: "pod", Labels: labelsOf(w.Color)}
 		if err := st.AddWorkload(ctx, wk, nil); err != nil {
 			addErrs = append(addErrs, w.ID)
 			continue
 		}
 		added = append(added, wk)
 	}
-	qr := []any{}
-	for _, q := range k.Queries {
+	procs := []*types.Processing{}
+	for _, p := range k.Procs {
+		pr := &types.Processing{Appname: p.App, Entryname: p.Entry, Nodename: p.Node, Ident: p.Ident}
+		if err := st.CreateProcessing(ctx, pr, p.Count); err == nil {
+			procs = append(procs, pr)
+		} else {
+			addErrs = append(addErrs, "proc:"+p.Ident)
+		}
+	}
+	qr := make([]any, len(k.Queries))
+	// 1. list and count queries
+	listed := map[int][]string{}
+	for qi, q := range k.Queries {
 		switch q.Kind {
 		case "list":
-			ws, err := st.ListWorkloads(ctx, q.App, q.Entry, q.Node, 0, nil)
+			ws, err := st.ListWorkloads(ctx, q.App, q.Entry, q.Node, q.Limit, labelsOf(q.Label))
 			r := listRes{}
 			if err != nil {
 				r.Err = "error"
@@ -127,8 +179,8 @@ func runWorld(k *kase) {
 				}
 				sort.Strings(r.IDs)
 			}
-			qr = append(qr, r)
-		default:
+			qr[qi] = r
+		case "count":
 			c, err := st.GetDeployStatus(ctx, q.App, q.Entry)
 			r := countRes{}
 			if err != nil {
@@ -136,8 +188,87 @@ func runWorld(k *kase) {
 			} else {
 				r.Counts = c
 			}
-			qr = append(qr, r)
+			qr[qi] = r
+		case "stream":
+			ws, _ := st.ListWorkloads(ctx, q.App, q.Entry, q.Node, 0, labelsOf(q.Label))
+			ids := []string{}
+			for _, w := range ws {
+				ids = append(ids, w.ID)
+			}
+			listed[qi] = ids
 		}
+	}
+	// 2. status streams: open every stream, then report a status for every workload exactly as
+	// calcium.SetWorkloadsStatus does (names parsed back from the workload name)
+	if len(listed) > 0 {
+		sctx, cancel := context.WithCancel(ctx)
+		cols := map[int]*collector{}
+		for qi, q := range k.Queries {
+			if q.Kind != "stream" {
+				continue
+			}
+			c := &collector{ids: map[string]bool{}}
+			cols[qi] = c
+			ch := st.WorkloadStatusStream(sctx, q.App, q.Entry, q.Node, labelsOf(q.Label))
+			go func() {
+				for m := range ch {
+					c.mu.Lock()
+					c.ids[m.ID] = true
+					c.mu.Unlock()
+				}
+			}()
+		}
+		time.Sleep(40 * time.Millisecond) // watches / subscriptions established
+		for _, wk := range added {
+			a, e, _, err := utils.ParseWorkloadName(wk.Name)
+			if err != nil {
+				continue
+			}
+			var before map[string]bool
+			if k.Backend == "redis" {
+				before = map[string]bool{}
+				for _, key := range mini.Keys() {
+					before[key] = true
+				}
+			}
+			st.SetWorkloadStatus(ctx, &types.StatusMeta{ID: wk.ID, Running: true, Healthy: true, Appname: a, Entrypoint: e, Nodename: wk.Nodename}, 0) //nolint
+			if k.Backend == "redis" {                                                                                                                  // miniredis has no keyspace notifications: emit the one Redis would send for the key just written
+				for _, key := range mini.Keys() {
+					if !before[key] {
+						mini.Publish("__keyspace@0__:"+key, "set")
+					}
+				}
+			}
+		}
+		// wait until every stream has delivered at least what ListWorkloads returns for its filters (max 400 ms),
+		// then a little longer for deliveries that should not happen
+		deadline := time.Now().Add(400 * time.Millisecond)
+		for time.Now().Before(deadline) {
+			ok := true
+			for qi, c := range cols {
+				have := map[string]bool{}
+				for _, id := range c.snapshot() {
+					have[id] = true
+				}
+				for _, id := range listed[qi] {
+					if !have[id] {
+						ok = false
+					}
+				}
+			}
+			if ok {
+				break
+			}
+			time.Sleep(10 * time.Millisecond)
+		}
+		time.Sleep(40 * time.Millisecond)
+		cancel()
+		for qi, c := range cols {
+			qr[qi] = streamRes{Stream: c.snapshot()}
+		}
+	}
+	for _, pr := range procs {
+		st.DeleteProcessing(ctx, pr) //nolint
 	}
 	for _, wk := range added {
 		st.RemoveWorkload(ctx, wk) //nolint
@@ -182,9 +313,16 @@ func run(k *kase) {
 
 // name pools: plain names, names with the separators the API accepts, path-like and glob-like names
 var plain = []string{"a", "b", "app", "web", "a1", "zz"}
+
+// names that are prefixes of one another (key-prefix collisions between neighbours)
+var prefixy = []string{"web", "web-canary", "webx", "n1", "n10", "app", "app_x", "app-1", "a", "a1", "a_b", "a_"}
 var seps = []string{"a_b", "a_", "_a", "a-b", "a.b", "a b", "b_a_b", "a__b"}
 var pathy = []string{"a/b", "/a", "a/", "/", ".", "..", "a/..", "a/../b", "a//b", "./a", "b/a"}
 var globby = []string{"a*", "*", "?", "a?", "[ab]", "a[", "a\\", "\\a", "[a-c]", "[^a]", "a]"}
+
+// share of worlds that also exercise WorkloadStatusStream (each costs ~0.1-0.5 s of waiting)
+var streamPct = 12
+
 var suffixes = []string{"abcdef", "QWERTY", "zzzzzz"}
 
 func pickName(r *hx.Rng, cls int, entry bool) string {
@@ -194,6 +332,8 @@ func pickName(r *hx.Rng, cls int, entry bool) string {
 		s = hx.Pick(r, plain...)
 	case 1:
 		s = hx.Pick(r, append(append([]string{}, plain...), seps...)...)
+	case 4:
+		s = hx.Pick(r, prefixy...)
 	case 2:
 		s = hx.Pick(r, append(append([]string{}, plain...), pathy...)...)
 	default:
@@ -218,7 +358,7 @@ func containsUS(s string) bool {
 
 func genWorld(r *hx.Rng, i int) *kase {
 	k := &kase{ID: fmt.Sprintf("w%d", i), Op: "world", Backend: hx.Pick(r, "etcd", "redis")}
-	cls := hx.Pick(r, 0, 1, 1, 1, 2, 3)
+	cls := hx.Pick(r, 0, 1, 1, 4, 4, 4, 2, 3)
 	if k.Backend == "etcd" && cls == 3 {
 		cls = 1
 	}
@@ -226,7 +366,7 @@ func genWorld(r *hx.Rng, i int) *kase {
 	names := map[string]bool{"": true}
 	for j := 0; j < n; j++ {
 		w := wl{App: pickName(r, cls, false), Entry: pickName(r, cls, true), Node: pickName(r, cls, false),
-			ID: fmt.Sprintf("id%02d", j), Sfx: hx.Pick(r, suffixes...)}
+			ID: fmt.Sprintf("id%02d", j), Sfx: hx.Pick(r, suffixes...), Color: hx.Pick(r, "", "red", "blue")}
 		if j > 0 && r.Chance(50) { // share parts with an earlier workload
 			p := k.World[r.Intn(j)]
 			switch r.Intn(3) {
@@ -254,6 +394,53 @@ func genWorld(r *hx.Rng, i int) *kase {
 			query{Kind: "list", App: w.App, Entry: w.Entry, Node: w.Node}, query{Kind: "count", App: w.App, Entry: w.Entry})
 	}
 	k.Queries = append(k.Queries, query{Kind: "list"})
+	// the extra features below are exercised with names that keep the key layout intact (classes 0, 1, 4):
+	// with '..'-style names keys leave their root and the three key spaces (deploy/status/processing) mix
+	tidy := cls != 2 && cls != 3
+	// in-flight deployment markers: on the workloads' own coordinates and on neighbouring names
+	for j := r.Intn(4); tidy && j > 0; j-- {
+		w := k.World[r.Intn(len(k.World))]
+		p := proc{App: w.App, Entry: w.Entry, Node: w.Node, Ident: fmt.Sprintf("op%02d", len(k.Procs)), Count: r.Range(1, 3)}
+		switch r.Intn(4) {
+		case 0:
+			p.Entry = pickName(r, cls, true)
+		case 1:
+			p.App = pickName(r, cls, false)
+		case 2:
+			p.Node = pickName(r, cls, false)
+		}
+		k.Procs = append(k.Procs, p)
+		names[p.App], names[p.Entry], names[p.Node] = true, true, true
+		k.Queries = append(k.Queries, query{Kind: "count", App: p.App, Entry: p.Entry})
+	}
+	pool = pool[:0]
+	for s := range names {
+		pool = append(pool, s)
+	}
+	sort.Strings(pool)
+	pool = append(pool, "nosuch")
+	// labels and limits
+	if tidy && r.Chance(40) {
+		w := k.World[r.Intn(len(k.World))]
+		k.Queries = append(k.Queries, query{Kind: "list", App: w.App, Label: hx.Pick(r, "red", "blue")},
+			query{Kind: "list", Label: "red"}, query{Kind: "list", Limit: int64(r.Range(1, 3))},
+			query{Kind: "list", App: w.App, Limit: int64(r.Range(1, 2))})
+	}
+	// status streams for every filter shape, including filters without their parent filter
+	if tidy && r.Chance(hx.EnvInt("VERIF_STREAM_PCT", streamPct)) {
+		w := k.World[r.Intn(len(k.World))]
+		for _, f := range [][3]string{{"", "", ""}, {w.App, "", ""}, {w.App, w.Entry, ""}, {w.App, w.Entry, w.Node},
+			{"", w.Entry, w.Node}, {"", "", w.Node}, {w.App, "", w.Node}, {"", w.Entry, ""},
+			{hx.Pick(r, pool...), hx.Pick(r, pool...), hx.Pick(r, pool...)}} {
+			k.Queries = append(k.Queries, query{Kind: "stream", App: f[0], Entry: f[1], Node: f[2]})
+		}
+		if r.Chance(30) {
+			k.Queries = append(k.Queries, query{Kind: "stream", App: w.App, Label: "red"})
+		}
+	}
+	for _, w := range k.World[:1] { // list queries of the same unusual shapes
+		k.Queries = append(k.Queries, query{Kind: "list", Entry: w.Entry, Node: w.Node}, query{Kind: "list", Node: w.Node}, query{Kind: "list", App: w.App, Node: w.Node})
+	}
 	for j := 0; j < 4; j++ {
 		k.Queries = append(k.Queries, query{Kind: hx.Pick(r, "list", "list", "count"), App: hx.Pick(r, pool...), Entry: hx.Pick(r, pool...), Node: hx.Pick(r, pool...)})
 	}
@@ -280,6 +467,20 @@ func corpus() []*kase {
 			Queries: []query{{Kind: "list", App: "c"}, {Kind: "list", App: "."}}},
 		{ID: "c-glob", Op: "world", Backend: "redis", World: []wl{w("a", "e", "n", "id00"), w("b", "e", "n", "id01")},
 			Queries: []query{{Kind: "list", App: "*"}, {Kind: "list", App: "?", Entry: "e"}, {Kind: "count", App: "[ab]", Entry: "e"}}},
+		{ID: "c-prefix-entry-processing", Op: "world", Backend: "etcd", World: []wl{w("app", "web", "n1", "id00"), w("app", "web-canary", "n1", "id01")},
+			Procs:   []proc{{App: "app", Entry: "web-canary", Node: "n1", Ident: "op00", Count: 2}, {App: "app", Entry: "web", Node: "n10", Ident: "op01", Count: 1}},
+			Queries: []query{{Kind: "count", App: "app", Entry: "web"}, {Kind: "count", App: "app", Entry: "web-canary"}, {Kind: "list", App: "app", Entry: "web"}, {Kind: "list", App: "app", Entry: "web", Node: "n1"}}},
+		{ID: "c-prefix-entry-processing-redis", Op: "world", Backend: "redis", World: []wl{w("app", "web", "n1", "id00"), w("app_x", "web", "n10", "id01")},
+			Procs:   []proc{{App: "app", Entry: "web-canary", Node: "n1", Ident: "op00", Count: 2}, {App: "app_x", Entry: "web", Node: "n1", Ident: "op01", Count: 1}},
+			Queries: []query{{Kind: "count", App: "app", Entry: "web"}, {Kind: "count", App: "app_x", Entry: "web"}, {Kind: "list", App: "app"}, {Kind: "list", App: "app", Entry: "web", Node: "n1"}}},
+		{ID: "c-collapsed-underscores", Op: "world", Backend: "etcd", World: []wl{w("my__app", "web", "n1", "id00"), w("my_app", "web", "n1", "id01"), w("billing_", "web", "n1", "id02"), w("billing", "web", "n1", "id03")},
+			Queries: []query{{Kind: "list", App: "my_app"}, {Kind: "list", App: "my__app"}, {Kind: "list", App: "billing"}, {Kind: "count", App: "billing_", Entry: "web"}}},
+		{ID: "c-stream-shapes", Op: "world", Backend: "etcd", World: []wl{w("app", "web", "n1", "id00"), w("n1", "web", "n10", "id01"), w("app", "api", "n1", "id02")},
+			Queries: []query{{Kind: "stream"}, {Kind: "stream", App: "app"}, {Kind: "stream", App: "app", Entry: "web"}, {Kind: "stream", App: "app", Entry: "web", Node: "n1"},
+				{Kind: "stream", Entry: "web", Node: "n1"}, {Kind: "stream", Node: "n1"}, {Kind: "stream", App: "app", Node: "n1"}, {Kind: "stream", App: "n1", Entry: "web"}}},
+		{ID: "c-stream-shapes-redis", Op: "world", Backend: "redis", World: []wl{w("app", "web", "n1", "id00"), w("n1", "web", "n10", "id01"), w("app", "api", "n1", "id02")},
+			Queries: []query{{Kind: "stream"}, {Kind: "stream", App: "app"}, {Kind: "stream", App: "app", Entry: "web"}, {Kind: "stream", App: "app", Entry: "web", Node: "n1"},
+				{Kind: "stream", Entry: "web", Node: "n1"}, {Kind: "stream", Node: "n1"}, {Kind: "stream", App: "app", Node: "n1"}}},
 		{ID: "c-underscore", Op: "world", Backend: "redis", World: []wl{w("a_b", "c", "n", "id00"), w("a", "c", "n", "id01")},
 			Queries: []query{{Kind: "list", App: "a"}, {Kind: "list", App: "a_b"}, {Kind: "count", App: "a", Entry: "c"}}},
 	}
